@@ -9,9 +9,16 @@ TREE = "dendropy.datamodel.treemodel._tree.Tree"
 TL = "dendropy.datamodel.treecollectionmodel.TreeList"
 
 
-def branch_map(fn_node, var="token"):
+def branch_map(fn_node, var=None):
     """token literal -> (set of self-call names, set of assigned names) in the branch it guards."""
     out = {}
+    if var is None:
+        # the token variable: the local most often assigned from next_token_ucase()
+        cnt = {}
+        for n in ast.walk(fn_node):
+            if isinstance(n, ast.Assign) and isinstance(n.value, ast.Call) and call_name(n.value) in ("next_token_ucase", "cast_current_token_to_ucase") and isinstance(n.targets[0], ast.Name):
+                cnt[n.targets[0].id] = cnt.get(n.targets[0].id, 0) + 1
+        var = max(cnt, key=cnt.get) if cnt else "token"
 
     def lits(test):
         r = set()
@@ -59,10 +66,13 @@ def run(index, rep, tier):
         called = {call_name(c) for c in calls_in(e.node)}
         for h in helpers:
             rep.check(h in called, "R13.1", e.qualname, "dispatch to " + h, fn_where(e), "%s dispatches to %s" % (entry, h), "%s no longer dispatches to %s" % (e.qualname, h))
+        unpack = [n for n in ast.walk(e.node) if isinstance(n, ast.Assign) and isinstance(n.targets[0], ast.Tuple) and len(n.targets[0].elts) == 3
+                  and isinstance(n.value, ast.Call) and "_extract_serialization_target_keyword" in norm(n.value.func)]
+        srcv, schv = (norm(unpack[0].targets[0].elts[1]), norm(unpack[0].targets[0].elts[2])) if unpack else ("src", "schema")
         for c in calls_in(e.node):
             if call_name(c) in helpers:
                 kw = {k.arg: norm(k.value) for k in c.keywords if k.arg}
-                ok = kw.get("src") == "src" and kw.get("schema") == "schema" and has_star_kwargs(c)
+                ok = kw.get("src") == srcv and kw.get("schema") == schv and has_star_kwargs(c)
                 rep.check(ok, "R13.1", e.qualname, "%s(%s)" % (call_name(c), kw), fn_where(e, c), "%s forwards src, schema and **kwargs unchanged to %s" % (entry, call_name(c)),
                           "%s calls %s with %s: the source, schema or keyword options are not forwarded unchanged on this route" % (e.qualname, call_name(c), kw))
         for h in helpers:
@@ -164,7 +174,7 @@ def run(index, rep, tier):
         common = [t for t in rl if t in yl]
         missing = [t for t in rl if t not in yl and "SETS" not in t and "END" not in t or (t not in yl and rq.endswith("_parse_trees_block"))]
         if rq.endswith("_parse_nexus_stream"):
-            missing = [t for t in rl if t not in yl and not ("token == 'END'" in t)]
+            missing = [t for t in rl if t not in yl and not ("== 'END'" in t)]
         rep.check(not missing, "R13.3", yf.qualname, "loop guards differ: %s" % missing, fn_where(yf), "loop guards agree (%d shared)" % len(common),
                   "loop guard(s) %s of %s have no counterpart in %s: the two front ends stop at different points" % (missing, rf.qualname, yf.qualname))
     # newick reader vs yielder constructions
@@ -186,12 +196,16 @@ def run(index, rep, tier):
     # ---- R13.4
     tf = index.function(TREE + "._parse_and_create_from_stream")
     subs = [norm(n) for n in walk_no_nested(tf.node) if isinstance(n, ast.Assign) and isinstance(n.value, ast.Subscript) for n in [n.value]]
-    ok = "tree_lists[collection_offset]" in subs and "tree_list[tree_offset]" in subs
+    rd_ = [n for n in walk_no_nested(tf.node) if isinstance(n, ast.Assign) and isinstance(n.value, ast.Call) and call_name(n.value) == "read_tree_lists"]
+    tlsv = norm(rd_[0].targets[0]) if rd_ else "tree_lists"
+    sel1 = [n for n in walk_no_nested(tf.node) if isinstance(n, ast.Assign) and norm(n.value) == tlsv + "[collection_offset]"]
+    tlv = norm(sel1[0].targets[0]) if sel1 else "tree_list"
+    ok = bool(sel1) and (tlv + "[tree_offset]") in subs
     rep.check(ok, "R13.4", tf.qualname, "selection %s" % subs, fn_where(tf), "Tree.get selects tree_lists[collection_offset][tree_offset] from the full read", "Tree._parse_and_create_from_stream selects with %s" % subs)
     reads = [c for c in calls_in(tf.node) if call_name(c) == "read_tree_lists"]
     rep.check(len(reads) == 1, "R13.4", tf.qualname, "single full read", fn_where(tf), "Tree.get performs one full read_tree_lists", "Tree.get no longer performs exactly one full read")
     # the selected tree is returned as read: stores into it after selection
-    sel = [n for n in walk_no_nested(tf.node) if isinstance(n, ast.Assign) and norm(n.value) == "tree_list[tree_offset]"]
+    sel = [n for n in walk_no_nested(tf.node) if isinstance(n, ast.Assign) and norm(n.value) == tlv + "[tree_offset]"]
     if sel:
         tv = norm(sel[0].targets[0])
         for n in walk_no_nested(tf.node):
@@ -204,10 +218,13 @@ def run(index, rep, tier):
                           % (norm(n.targets[0]), norm_stmt(n), n.targets[0].attr))
     lf = index.function(TL + "._parse_and_create_from_stream")
     loops = [norm(f.iter) for f in walk_no_nested(lf.node) if isinstance(f, ast.For)]
-    ok = "target_tree_list[tree_offset:]" in loops and "target_tree_list" in loops
-    rep.check(ok, "R13.4", lf.qualname, "appends %s" % loops, fn_where(lf), "TreeList.get appends target_tree_list[tree_offset:] (or all of it)", "TreeList._parse_and_create_from_stream iterates %s" % loops)
-    sel2 = [norm(n.value) for n in walk_no_nested(lf.node) if isinstance(n, ast.Assign) and norm(n.targets[0]) == "target_tree_list"]
-    rep.check(sel2 == ["tree_lists[collection_offset]"], "R13.4", lf.qualname, "collection selection %s" % sel2, fn_where(lf), "TreeList.get selects tree_lists[collection_offset]", "TreeList.get selects the collection with %s" % sel2)
+    rd2 = [n for n in walk_no_nested(lf.node) if isinstance(n, ast.Assign) and isinstance(n.value, ast.Call) and call_name(n.value) == "read_tree_lists"]
+    tls2 = norm(rd2[0].targets[0]) if rd2 else "tree_lists"
+    selc = [n for n in walk_no_nested(lf.node) if isinstance(n, ast.Assign) and norm(n.value) == tls2 + "[collection_offset]"]
+    ttl = norm(selc[0].targets[0]) if selc else "target_tree_list"
+    ok = (ttl + "[tree_offset:]") in loops and ttl in loops
+    rep.check(ok, "R13.4", lf.qualname, "appends %s" % loops, fn_where(lf), "TreeList.get appends target[tree_offset:] (or all of it)", "TreeList._parse_and_create_from_stream iterates %s" % loops)
+    rep.check(len(selc) == 1, "R13.4", lf.qualname, "collection selection", fn_where(lf), "TreeList.get selects tree_lists[collection_offset]", "TreeList.get no longer selects the collection with <read result>[collection_offset]")
 
     # ---- R13.5
     for name in ("read_dataset", "read_tree_lists", "read_char_matrices"):
